@@ -60,19 +60,20 @@ Definition sources_ok : bool :=
                 Generated.SplitFacts.morpheme_split_into_delegates.
 
 (* ---- correspondence entry point: on-demand splits of the C tokens INTO A LIST OF ANOTHER DICTIONARY INSTANCE that already
-   holds `prior` nodes; fa / fb = (flag, nodes appended) as reported ---- *)
+   holds nodes; fa / fb = per C token (number of nodes the target held, (flag, nodes appended) as reported) ---- *)
 Definition sdict_of (d : list dentry) : sdict := mkSDict (d_hw d) (d_units true d) (d_units false d).
 
-Definition check_foreign (d df : list dentry) (t m2o : list N) (cp : list (N * N * N)) (prior : nat)
-           (fa fb : list (option (bool * list otoken))) : bool :=
+Definition check_foreign (d df : list dentry) (t m2o : list N) (cp : list (N * N * N))
+           (fa fb : list (nat * option (bool * list otoken))) : bool :=
   let cpath := map (fun x => let '(cb, ce, w) := x in mk_cnode t cb ce w) cp in
   let src := mkMList (sdict_of d) t 0 cpath in
-  let out := mkMList (sdict_of df) [] 0 (repeat (mkNode 0 0 0 0 0) prior) in
-  let one m i rep :=
+  let one m i (rep : nat * option (bool * list otoken)) :=
+      let prior := fst rep in
+      let out := mkMList (sdict_of df) [] 0 (repeat (mkNode 0 0 0 0 0) prior) in
       same_split (match split_into_lists m src i out with
                   | Some (b, r) => Some (b, skipn prior (ml_nodes r))
                   | None => None
-                  end) t m2o rep in
+                  end) t m2o (snd rep) in
   Nat.eqb (List.length fa) (List.length cpath) && Nat.eqb (List.length fb) (List.length cpath) &&
   forallb (fun p => one ModeA (fst p) (snd p)) (combine (seq 0 (List.length cpath)) fa) &&
   forallb (fun p => one ModeB (fst p) (snd p)) (combine (seq 0 (List.length cpath)) fb).
